@@ -153,9 +153,9 @@ func rulesC02(c *Ctx) {
 				"the path handed to "+lastSeg(q)+" does not depend on the destination ("+originsString(Origins(arg, FlowOpts{}))+") — the copy creates nodes elsewhere (e.g. inside the source tree)")
 		}
 		// walk callbacks
-		if f.Parent() != nil && len(f.Params) == 3 && isErrorType(f.Params[2].Type()) {
+		if wp := walkFuncParams(f); wp != nil && f.Parent() != nil {
 			facts := factsFor(f)
-			info, errp := f.Params[1], f.Params[2]
+			info, errp := wp[1], wp[2]
 			uses := 0
 			okU := true
 			var dirEdgeCreates bool
@@ -194,6 +194,70 @@ func rulesC02(c *Ctx) {
 			c.Check(dirEdgeCreates, "R3", "walk callback in "+fname(top)+" creates visited directories", f.Pos(), "a directory node leads to MkdirAll under the destination on its IsDir edge",
 				"a directory met by the walk is not created at the destination on that edge — empty directories are missing from the copy (the memory backend keeps them)")
 		}
+	}
+	// walk callbacks that are methods / named functions (the literal was turned into a method of a small struct)
+	for _, f := range c.P.PkgFuncs(diskPkg) {
+		wp := walkFuncParams(f)
+		if wp == nil || f.Parent() != nil {
+			continue
+		}
+		facts := factsFor(f)
+		info, errp := wp[1], wp[2]
+		uses, okU := 0, true
+		for _, r := range *info.Referrers() {
+			in, isIn := r.(ssa.Instruction)
+			if _, isDbg := r.(*ssa.DebugRef); !isIn || isDbg {
+				continue
+			}
+			uses++
+			if !facts.KnownNil(in.Block(), errp, true) {
+				okU = false
+			}
+		}
+		n4++
+		c.Check(okU && uses > 0, "R4", "walk callback "+fname(f)+" guards its error", f.Pos(), fmt.Sprintf("%d use(s) of the FileInfo, all on the err == nil edge", uses),
+			"the FileInfo is used on a path where the callback's error was not tested nil — filepath.Walk hands a nil FileInfo together with the error (missing source: panic instead of an error)")
+		dirEdgeCreates := false
+		for _, ci := range Calls(f) {
+			if ci.Static == nil {
+				continue
+			}
+			q := qualName(ci.Static)
+			creating := -1
+			switch q {
+			case "os.Create", "os.MkdirAll", "os.Mkdir", mq(diskPkg, "", "MkdirAll"):
+				creating = 0
+			case mq(diskPkg, "", "CopyFile"), mq(diskPkg, "", "CopyDirectory"), "os.Link", "os.Symlink", "os.Rename":
+				creating = 1
+			}
+			if creating < 0 {
+				continue
+			}
+			n3++
+			// the created path must depend on more than what the walk hands to the callback
+			onlyWalk := true
+			os := Origins(ci.Arg(creating), FlowOpts{Interproc: 2})
+			for _, o := range os {
+				switch {
+				case o.Kind == "const" || o.Kind == "nil":
+				case o.Kind == "param" && (o.Val == ssa.Value(wp[0]) || o.Val == ssa.Value(wp[1]) || o.Val == ssa.Value(wp[2])):
+				default:
+					onlyWalk = false
+				}
+			}
+			c.Check(!onlyWalk, "R3", fmt.Sprintf("%s in %s creates under the destination", lastSeg(q), fname(f)), ci.Pos(), "the created path depends on the copier's destination, not only on the walked path",
+				"the path handed to "+lastSeg(q)+" derives only from the walked source path ("+originsString(os)+") — the copy creates nodes inside the source tree")
+			if q == mq(diskPkg, "", "MkdirAll") || q == "os.MkdirAll" || q == "os.Mkdir" {
+				for k := range facts.At(ci.Block) {
+					if call, isCall := k.v.(*ssa.Call); isCall && k.pol && call.Call.Method != nil && call.Call.Method.Name() == "IsDir" && call.Call.Value == ssa.Value(info) {
+						dirEdgeCreates = true
+					}
+				}
+			}
+		}
+		n3++
+		c.Check(dirEdgeCreates, "R3", "walk callback "+fname(f)+" creates visited directories", f.Pos(), "a directory node leads to MkdirAll under the destination on its IsDir edge",
+			"a directory met by the walk is not created at the destination on that edge — empty directories are missing from the copy (the memory backend keeps them)")
 	}
 	c.Floor("R3", n3, 3)
 	c.Floor("R4", n4, 1)
@@ -255,60 +319,7 @@ func rulesC02(c *Ctx) {
 	c.Floor("R5", n5, 16)
 
 	// ---- R6 CopyFile closes and reports ---------------------------------------------------------------
-	if cf := c.P.Func(diskPkg, "", "CopyFile"); cf == nil {
-		c.Bad("R6", "disk.CopyFile", 0, "anchor not found")
-	} else {
-		facts := factsFor(cf)
-		var create, cp *ssa.Call
-		for _, ci := range Calls(cf) {
-			call, _ := ci.Instr.(*ssa.Call)
-			if call == nil || ci.Static == nil {
-				continue
-			}
-			switch qualName(ci.Static) {
-			case "os.Create", "os.OpenFile":
-				create = call
-			case "io.Copy":
-				cp = call
-			}
-		}
-		ok := create != nil && cp != nil
-		why := "CopyFile does not create the destination and copy into it"
-		if ok {
-			dval := firstOr(resultN(create, 0))
-			isClose := func(in ssa.Instruction) bool {
-				ci := callInfo(in, nil, 0)
-				return ci != nil && ci.Static != nil && qualName(ci.Static) == "os.(File).Close" && resolve(ci.Recv()) == dval
-			}
-			bad := MustPassF(cf, create, isClose, func(st int, pred, succ *ssa.BasicBlock) bool {
-				return !knownNilIn(factsOnEdge(facts, pred, succ), firstOr(resultN(create, 1)), false)
-			})
-			if len(bad) > 0 {
-				ok, why = false, "a return is reachable with the destination file still open"
-			}
-			// success path returns the Close error
-			for _, r := range returnsOf(cf) {
-				v := resolve(r.Results[0])
-				if isNilConst(v) && facts.KnownNil(r.Block(), firstOr(resultN(cp, 1)), true) {
-					ok, why = false, "success is returned without the destination's Close error (a failed flush is lost)"
-				}
-			}
-			retClose := false
-			for _, r := range returnsOf(cf) {
-				if call, isCall := resolve(r.Results[0]).(*ssa.Call); isCall && isClose(call) {
-					retClose = true
-				}
-			}
-			if ok && !retClose {
-				// alternatively the close error is tested and returned
-				ok, why = false, "the destination's Close error is not what the success path returns"
-			}
-			if len(resultN(cp, 1)) == 0 {
-				ok, why = false, "the error of io.Copy is dropped"
-			}
-		}
-		c.Check(ok, "R6", "disk.CopyFile closes and reports", cf.Pos(), "destination closed on every path; Close error returned on success", why)
-	}
+	ruleDiskCopyFileCloses(c)
 
 	// ---- R7 host paths are exactly root + argument ----------------------------------------------------------
 	n7 := 0
@@ -351,7 +362,7 @@ func rulesC02(c *Ctx) {
 			c.Check(ok, "R7", con, u.Pos(), "root + reduced argument ["+describeParts(u)+"]", why+" — the operation touches a sibling of the addressed node ["+describeParts(u)+"]")
 		}
 	}
-	c.Floor("R7", n7, 18)
+	c.Floor("R7", n7, 8)
 	_ = types.Typ
 
 	// ---- R8 names are opaque bytes (both backends must split at the separator only) ----
@@ -421,4 +432,118 @@ func derivesFromParam(v ssa.Value, p *ssa.Parameter) bool {
 		return false
 	}
 	return rec(v, 0)
+}
+
+// walkFuncParams: f has the shape of a filepath.WalkFunc - (path string, info
+// os.FileInfo, err error) error, after an optional receiver; returns the three.
+func walkFuncParams(f *ssa.Function) []*ssa.Parameter {
+	ps := f.Params
+	if f.Signature.Recv() != nil && len(ps) > 0 {
+		ps = ps[1:]
+	}
+	if len(ps) != 3 || f.Signature.Results().Len() != 1 || !isErrorType(f.Signature.Results().At(0).Type()) {
+		return nil
+	}
+	if !isStringy(ps[0].Type()) || !isFileInfo(ps[1].Type()) || !isErrorType(ps[2].Type()) {
+		return nil
+	}
+	return ps
+}
+
+// ruleDiskCopyFileCloses (R6): disk.CopyFile closes its destination on every
+// path after it was created and returns that Close's error on the success path;
+// the copy-and-close tail may live in a private helper that receives the file.
+func ruleDiskCopyFileCloses(c *Ctx) {
+	cf := c.P.Func(diskPkg, "", "CopyFile")
+	if cf == nil {
+		c.Bad("R6", "disk.CopyFile", 0, "anchor not found")
+		return
+	}
+	find := func(g *ssa.Function) (create, cp *ssa.Call) {
+		for _, ci := range Calls(g) {
+			call, _ := ci.Instr.(*ssa.Call)
+			if call == nil || ci.Static == nil {
+				continue
+			}
+			switch qualName(ci.Static) {
+			case "os.Create", "os.OpenFile":
+				create = call
+			case "io.Copy":
+				cp = call
+			}
+		}
+		return
+	}
+	// analyse: in g, the file value dval is closed on every path from `start` and the Close error is the success result
+	analyse := func(g *ssa.Function, dval ssa.Value, start ssa.Instruction, createErr ssa.Value, cp *ssa.Call) (bool, string) {
+		facts := factsFor(g)
+		isClose := func(in ssa.Instruction) bool {
+			ci := callInfo(in, nil, 0)
+			return ci != nil && ci.Static != nil && qualName(ci.Static) == "os.(File).Close" && resolve(ci.Recv()) == dval
+		}
+		bad := MustPassF(g, start, isClose, func(st int, pred, succ *ssa.BasicBlock) bool {
+			return createErr == nil || !knownNilIn(factsOnEdge(facts, pred, succ), createErr, false)
+		})
+		if len(bad) > 0 {
+			return false, "a return is reachable with the destination file still open"
+		}
+		if len(resultN(cp, 1)) == 0 {
+			return false, "the error of io.Copy is dropped"
+		}
+		for _, r := range returnsOf(g) {
+			v := resolve(r.Results[len(r.Results)-1])
+			if isNilConst(v) && facts.KnownNil(r.Block(), firstOr(resultN(cp, 1)), true) {
+				return false, "success is returned without the destination's Close error (a failed flush is lost)"
+			}
+		}
+		for _, r := range returnsOf(g) {
+			if call, isCall := resolve(r.Results[len(r.Results)-1]).(*ssa.Call); isCall && isClose(call) {
+				return true, ""
+			}
+		}
+		return false, "the destination's Close error is not what the success path returns"
+	}
+	create, cp := find(cf)
+	ok, why := false, "CopyFile does not create the destination and copy into it"
+	switch {
+	case create != nil && cp != nil:
+		ok, why = analyse(cf, firstOr(resultN(create, 0)), create, firstOr(resultN(create, 1)), cp)
+	case create != nil:
+		dval := firstOr(resultN(create, 0))
+		cfacts := factsFor(cf)
+		for _, ci := range Calls(cf) {
+			if ci.Static == nil || ci.Static.Pkg != cf.Pkg || ci.Static.Blocks == nil || ci.Kind != "call" {
+				continue
+			}
+			_, hcp := find(ci.Static)
+			if hcp == nil {
+				continue
+			}
+			for ai, a := range ci.Common.Args {
+				if dval == nil || resolve(a) != dval || ai >= len(ci.Static.Params) {
+					continue
+				}
+				ok, why = analyse(ci.Static, ci.Static.Params[ai], nil, nil, hcp)
+				if ok {
+					// the helper runs on every path after a successful create, and its result is what CopyFile returns there
+					bad := MustPassF(cf, create, func(in ssa.Instruction) bool { return in == ci.Instr }, func(st int, pred, succ *ssa.BasicBlock) bool {
+						return !knownNilIn(factsOnEdge(cfacts, pred, succ), firstOr(resultN(create, 1)), false)
+					})
+					if len(bad) > 0 {
+						ok, why = false, "after the destination was created a return is reachable without the copy-and-close helper"
+					}
+					ret := false
+					for _, r := range returnsOf(cf) {
+						if resolve(r.Results[len(r.Results)-1]) == ci.Value() {
+							ret = true
+						}
+					}
+					if ok && !ret {
+						ok, why = false, "the result of the copy-and-close helper is not returned"
+					}
+				}
+			}
+		}
+	}
+	c.Check(ok, "R6", "disk.CopyFile closes and reports", cf.Pos(), "destination closed on every path; Close error returned on success", why)
 }
